@@ -216,6 +216,18 @@ theorem removeComp_reach (fuel : Nat) (t : Table κ ω α) (k : κ) (hf : t.leng
     rw [hP] at hmem
     exact hpx (keys_filter.mp hmem).2
 
+/-- After a removal no surviving derived component reads an identifier that is gone: if every
+input of every derived component was in the table before, the same holds afterwards. -/
+theorem removeComp_closed (fuel : Nat) (t : Table κ ω α) (k : κ) (hf : t.length ≤ fuel)
+    (hc : ∀ d c fs x, (d, c) ∈ t → c.fromIds = some fs → x ∈ fs → x ∈ t.keys) :
+    ∀ d c fs x, (d, c) ∈ removeComp fuel t k → c.fromIds = some fs → x ∈ fs →
+      x ∈ (removeComp fuel t k).keys := by
+  intro d c fs x hm hfs hx
+  have inv := removeComp_inv fuel t k hf
+  obtain ⟨P, hP⟩ := inv.sub
+  have hmt : (d, c) ∈ t := by rw [hP] at hm; exact (List.mem_filter.mp hm).1
+  exact inv.closed d c fs x hm hfs hx (hc d c fs x hmt hfs hx)
+
 /-! ### the executable closure (`depClosure`, breadth-first rounds) is the reachability relation -/
 
 /-- The keys one round adds. -/
